@@ -10,6 +10,7 @@
     Recycle once) is tied by the correspondence streams and the handle oracles of bin/check. *)
 From Ark Require Import Model.Base Model.Mask Model.Pool Model.World Model.Run Proofs.PoolSpec Proofs.PoolProofs.
 From Ark Require Import Proofs.WF Proofs.StorageA Proofs.StorageC.
+From Ark Require Import Proofs.Rel2Defs Proofs.Rel2Hist Proofs.Rel2HistQ Proofs.Rel2HistR.
 
 Theorem C02_handles_unique :
   forall ops, never_wrapped ops -> NoDup (g_issued (grun ops)).
@@ -65,5 +66,21 @@ Example C02_history :
 Proof. vm_compute. repeat split; reflexivity. Qed.
 
 (** One traversal of the dependency graph for all theorems of this file. *)
-Definition C02_all := (C02_world_creation_fresh, C02_world_invariant_reachable, C02_handles_unique, C02_alive_exact, C02_removed_stays_dead, C02_zero_entity_dead_and_ids_not_reserved, C02_count, C02_count_needs_no_wrap).
+(** In histories that contain Reset (relation worlds, Rel2HistR): a handle issued by a step differs from every
+    handle of the CURRENT epoch and denotes a stored entity (it may equal a handle issued before the last Reset:
+    the documented contract of Reset). *)
+Theorem C02_creation_fresh_in_histories_with_resets :
+  forall (debug wd : bool) (s : World.W) (n k : nat) (line : list Z) (o : op) (e : ent),
+         Inv2R s n k ->
+         n + 4 < 2 ^ 31 ->
+         decode_op line = Some o ->
+         rel_r_op o = true ->
+         (forall c : nat, In c (rel_op_ids o) -> c < length (w_reg s)) ->
+         rel_q_flt_ok (w_reg s) o ->
+         (is_locked s = false -> r2r_foreign_ok k s o) ->
+         w_issued (fst (step debug wd s line)) = w_issued s ++ [e] ->
+         ~ In e (skipn k (w_issued s)) /\ live (fst (step debug wd s line)) e = true /\ live s e = false.
+Proof. exact creation_fresh_R. Qed.
+
+Definition C02_all := (C02_creation_fresh_in_histories_with_resets, C02_world_creation_fresh, C02_world_invariant_reachable, C02_handles_unique, C02_alive_exact, C02_removed_stays_dead, C02_zero_entity_dead_and_ids_not_reserved, C02_count, C02_count_needs_no_wrap).
 Print Assumptions C02_all.
